@@ -118,7 +118,11 @@ func (st *ReqState) AddCopy(c *rux.Context) {
 
 // CopyText renders what a copied context holds (user data and parameters).
 func CopyText(c *rux.Context) string {
-	return "data={" + dataText(c.Data()) + "} params={" + paramsText(c.Params) + "}"
+	errs := make([]string, len(c.Errors))
+	for i, e := range c.Errors {
+		errs[i] = e.Error()
+	}
+	return "data={" + dataText(c.Data()) + "} params={" + paramsText(c.Params) + "} errors=[" + strings.Join(errs, "; ") + "]"
 }
 
 // FreezeCopies records what the copies hold now (called right after their request ended).
